@@ -17,6 +17,8 @@ import (
 	"context"
 	"errors"
 	"fmt"
+	"os"
+	"path/filepath"
 	"strings"
 	"sync"
 	"sync/atomic"
@@ -41,6 +43,8 @@ type c15Case struct {
 	MustErr  bool     `json:"must_err"`           // the program cannot end on its own: the call must return the ctx error
 	Prefix   string   `json:"prefix,omitempty"`   // output that was printed before the cancellation
 	MaxWall  float64  `json:"max_wall_s,omitempty"` // only for shapes that wait for a `sleep 5` child
+	ArgsFile string   `json:"args_file,omitempty"`       // file operand (content: "f1\nf2\n") …
+	ArgsN    int      `json:"args_file_repeated,omitempty"` // … given this many times
 }
 
 type c15Res struct {
@@ -134,6 +138,9 @@ func (s *c15Session) run(cs c15Case) (res c15Res) {
 	cfg := &interp.Config{Stdin: strings.NewReader(cs.Input), Output: &raw, Error: &errOut, Vars: cs.Vars, Funcs: s.funcs, Environ: []string{}}
 	if cs.Buffered {
 		cfg.Output = bufio.NewWriterSize(&raw, 1<<16)
+	}
+	for i := 0; i < cs.ArgsN; i++ {
+		cfg.Args = append(cfg.Args, cs.ArgsFile)
 	}
 	s.mu.Lock()
 	s.cancelFn, s.cancelled, s.ticks, s.after = nil, false, 0, 0
@@ -295,6 +302,23 @@ func runC15(c *vh.Ctx) {
 		"context cancelled before the call; 30 ms deadline) x plain or bufio output; never-cancelled runs: 7 programs x 5 inputs x " +
 		"{Execute, ExecuteContext(Background), ExecuteContext(live)}; non-trivial = the context was cancelled while the program was running")
 
+	tmpDir, err := os.MkdirTemp("", "c15f")
+	if err != nil {
+		panic(err)
+	}
+	defer os.RemoveAll(tmpDir)
+	twoLines := filepath.Join(tmpDir, "two-lines.txt")
+	if err := os.WriteFile(twoLines, []byte("f1\nf2\n"), 0o644); err != nil {
+		panic(err)
+	}
+	// the two command streams (mostly sleeping) run in the background while the CPU-bound streams below run
+	waitStreamDone := c15StartWaitStream(c)
+	defer func() {
+		if waitStreamDone != nil {
+			waitStreamDone() // never leave the function with runs in flight
+		}
+	}()
+
 	var cases []c15Case
 	add := func(cs c15Case) {
 		cases = append(cases, cs)
@@ -325,7 +349,9 @@ func runC15(c *vh.Ctx) {
 	for i := c.N(150, 4000); i > 0; i-- {
 		k := 1 + c.Rng.Intn(3000)
 		buffered := c.Rng.Intn(2) == 0
-		switch c.Rng.Intn(7) {
+		switch c.Rng.Intn(11) {
+		case 7, 8, 9, 10:
+			add(c15LeaveCase(c, k, buffered, twoLines))
 		case 0: // numbered output: lines 1..k were printed before cancel()
 			add(c15Case{Shape: "numbered-output", Prog: `BEGIN { for (i = 1; ; i++) { print i; if (i == K) cancel() } }`, Vars: []string{"K", fmt.Sprint(k)},
 				Ctx: "live", Buffered: buffered, MustErr: true, Prefix: c15Lines(k)})
@@ -363,7 +389,7 @@ func runC15(c *vh.Ctx) {
 			continue
 		}
 		c.OracleCase()
-		c.Eval(fmt.Sprint(cs.Shape, cs.Vars, cs.Ctx, cs.Buffered), r.Cancelled || cs.Ctx == "timeout")
+		c.Eval(fmt.Sprint(cs.Shape, cs.Prog, cs.Vars, cs.Ctx, cs.Buffered), r.Cancelled || cs.Ctx == "timeout")
 		c.Hit("shape:" + cs.Shape)
 		c.Hit("ctx:" + cs.Ctx)
 		c.Hit(fmt.Sprintf("ticks-after-cancel:%s", c15Bucket(r.TicksAfter)))
@@ -672,6 +698,11 @@ func runC15(c *vh.Ctx) {
 			}
 		}
 	}
+
+	// ---- waiting for commands x kinds of Config.Stdin x ways a context becomes done; never-cancelled == Execute with
+	// commands that read standard input (waitcmd.go, equivcmd.go) ----
+	c15ReportWaitStream(c, waitStreamDone())
+	waitStreamDone = nil
 
 	// ---- correspondence: exact tick counts of the loop shape ----
 	if c.HasLean() {
